@@ -31,6 +31,9 @@ def stale (cutoff : Int) : Option File → Bool
   | some f => Gen.Cache.trimRemove true f.mtime cutoff
   | none => Gen.Cache.trimRemove false 0 cutoff
 
+theorem stale_some_iff (cutoff : Int) (f : File) : stale cutoff (some f) = true ↔ f.mtime < cutoff := by
+  simp [stale, Gen.Cache.trimRemove]
+
 theorem stale_none (cutoff : Int) : stale cutoff none = false := by
   simp [stale, Gen.Cache.trimRemove]
 
@@ -96,8 +99,8 @@ theorem trimStep_get (sub : Bytes) (cutoff : Int) (fs : FS) (name p : Bytes) :
       by_cases hr : Gen.Cache.trimRemove true f.mtime cutoff = true
       · simp only [hr, if_true, FS.get_erase]
         by_cases hp : p = sub ++ [slash] ++ name
-        · rw [keepUnless_pos ⟨⟨hp, he⟩, by rw [hp, hget]; exact hr⟩]; simp [hp]
-        · rw [keepUnless_neg (fun h => hp h.1.1)]; simp [hp]
+        · rw [keepUnless_pos ⟨⟨hp, he⟩, by rw [hp, hget]; exact hr⟩, if_pos hp]
+        · rw [keepUnless_neg (fun h => hp h.1.1), if_neg hp]
       · simp only [hr, Bool.false_eq_true, if_false]
         rw [keepUnless_neg]
         rintro ⟨⟨hp, _⟩, hs⟩
@@ -257,6 +260,26 @@ theorem timeUnixSec_small (t : Int) (h0 : -(2 ^ 62) ≤ t) (h1 : t < 2 ^ 62) :
   rw [this]; omega
 
 theorem durSub_exact (a b : Int) (h0 : -(2 ^ 63) ≤ a - b) (h1 : a - b < 2 ^ 63) : durSub a b = a - b := by
+  unfold durSub minDuration maxDuration
+  simp only []
+  split
+  · omega
+  · split
+    · omega
+    · rfl
+
+
+/-- saturation does not move a `Duration` across a threshold that is itself a `Duration`. -/
+theorem durSub_lt_iff (a b c : Int) (h0 : -(2 ^ 63) < c) (h1 : c < 2 ^ 63) : durSub a b < c ↔ a - b < c := by
+  unfold durSub minDuration maxDuration
+  simp only []
+  split
+  · omega
+  · split
+    · omega
+    · rfl
+
+theorem durSub_gt_iff (a b c : Int) (h0 : -(2 ^ 63) ≤ c) (h1 : c < 2 ^ 63 - 1) : durSub a b > c ↔ a - b > c := by
   unfold durSub minDuration maxDuration
   simp only []
   split
